@@ -243,8 +243,8 @@ def c10(ctx):
 # ------------------------------------------------------------------------------
 # Pipeline (C05 C07 C15)
 
-def live_consts(ctx):
-    rep = ctx.vh(["pipe-consts", "-property", ctx.prop], merge=False)
+def live_consts(ctx, procs=0):
+    rep = ctx.vh(["pipe-consts", "-property", ctx.prop] + (["-procs", str(procs)] if procs else []), merge=False)
     c = json.loads(rep["info"]["consts"])
     for m in rep.get("mismatches") or []:
         ctx.mismatches.append(m)
@@ -421,6 +421,18 @@ def c07(ctx):
     ctx.vh(["g-pipe", "-trace", t1, "-seed", str(ctx.seed), "-picks", picks, "-docs", "4" if q else "10",
             "-random", "20" if q else "200", "-property", "C07"], timeout=3000)
     pipeline_trace_validate(ctx, c, t1, "C07")
+    # the same with ONE scheduler thread: constants must not depend on GOMAXPROCS (if they do, the model is checked with those as well
+    # and the forced schedules are replayed under them)
+    c1 = live_consts(ctx, procs=1)
+    if any(c1[k] != c[k] for k in ("slots", "cap", "thresh", "syncmax")):
+        log("[C07] the pipeline's constants depend on GOMAXPROCS: %s (1 thread) vs %s" % ({k: c1[k] for k in ("slots", "cap", "thresh", "syncmax")}, {k: c[k] for k in ("slots", "cap", "thresh", "syncmax")}))
+        m1 = pipeline_model(ctx, c1, "{0, 1, 6, 17, 33}", 1, "live constants under GOMAXPROCS=1")
+        model_ok = model_ok and m1["ok"]
+        m = m if not m["ok"] else m1
+    t1b = os.path.join(d, "forced-1p.ndjson")
+    ctx.vh(["g-pipe", "-trace", t1b, "-seed", str(ctx.seed + 7), "-picks", picks, "-docs", "2" if q else "6", "-random", "5" if q else "60",
+            "-procs", "1", "-property", "C07"], timeout=3000)
+    pipeline_trace_validate(ctx, c1, t1b, "C07")
     t2 = os.path.join(d, "free.ndjson")
     ctx.vh(["v-pipe", "-family", "free", "-n", "40" if q else "400", "-trace", t2, "-seed", str(ctx.seed), "-property", "C07"], timeout=3000)
     pipeline_trace_validate(ctx, c, t2, "C07")
